@@ -117,9 +117,10 @@ def tokens(text):
 
 class C19(Prop):
     ID = "C19"
-    THEOREMS = ["C19_generated_field_count", "C19_generated_field_count_rest", "C19_parse_generated",
-                "C19_header_field_count", "C19_supplied_schema_verbatim", "C19_default_schema",
-                "C19_parser_total", "C19_parser_output_bounded", "C19_parser_fuel_independent"]
+    THEOREMS = ["C19_parser_total", "C19_parser_output_bounded",
+                "C19_generated_field_count", "C19_generated_field_count_rest", "C19_generated_field_count_bed3_line",
+                "C19_parse_generated", "C19_header_field_count", "C19_header_field_count_tool",
+                "C19_supplied_schema_verbatim", "C19_stored_is_supplied", "C19_write_pre_total", "C19_default_schema"]
     RULE = ("generator: rests with 0..40 extra columns (and 41..60, 100, 255, 1000, empty columns); grammar-based autoSql texts "
             "(simple/object/table, sized and variable arrays, enum/set, index/unique/primary/auto, 1..6 declarations, random blank "
             "space and comments containing delimiters) with the field counts the grammar intended; every truncation and single-token "
